@@ -11,8 +11,10 @@ import (
 	"time"
 
 	"github.com/FollowTheProcess/spok/hash"
+	"github.com/FollowTheProcess/spok/parser"
 
 	"verifharness/internal/ev"
+	"verifharness/internal/lang"
 	"verifharness/internal/pool"
 )
 
@@ -24,6 +26,90 @@ import (
 func init() {
 	checks["racepass"] = racePass
 	workers["race"] = raceWorker
+	checks["racepass08"] = racePass08
+	workers["race08"] = race08Worker
+}
+
+// Supplementary pass for C08: the unmodified lexer and parser (two goroutines per parse) run
+// free-running under the race detector over every string of <= 3 alphabet symbols, every single
+// edit of three programs, and every (parser-level error, lexer-level error) pair placed on
+// adjacent lines - alone and below 3000 lines of filler, so that the lexer is still busy when
+// the parser gives up.
+func race08Inputs() []string {
+	var out []string
+	add := func(in lang.Input) { out = append(out, in.Text) }
+	sg := lang.SigmaSpace{N: 3}
+	for i := int64(0); i < sg.Count(); i++ {
+		sg.Gen(i, add)
+	}
+	ed := lang.EditSpace{Label: "race-edit", Bases: []string{"X := \"x\"\n# c\ntask a(\"x.go\", b) -> (\"o\", X) {\n    echo {{.X}} a\n}\n", "task a() { echo a }\ntask b(a) -> X {}\n", "Y := join(\"a\", X)\n"}}
+	for i := int64(0); i < ed.Count(); i++ {
+		ed.Gen(i, add)
+	}
+	perr := []string{"task a()\nb\n", "X := \"a\" \"b\"\n", "task a(\"x\" \"y\") {}\n", "task a() -> {}\n", "X Y\n", "task a(b\n"}
+	lerr := []string{"foo bar\n", "X := \"unterminated\n", "task ?\n", "@\n", "task a() { echo {{.X }\n", "X := 'q'\n"}
+	filler := strings.Repeat("# comment line\nV := \"v\"\n", 1500)
+	for _, p := range perr {
+		for _, l := range lerr {
+			out = append(out, p+l, l+p, filler+p+l, filler+l+p)
+		}
+	}
+	return out
+}
+
+// worker: mc worker race08 <reps>
+func race08Worker(args []string) {
+	reps, _ := strconv.Atoi(args[0])
+	n := 0
+	ins := race08Inputs()
+	for r := 0; r < reps; r++ {
+		for _, x := range ins {
+			parser.New(x).Parse()
+			n++
+		}
+		runtime.Gosched()
+	}
+	time.Sleep(50 * time.Millisecond)
+	fmt.Printf("{\"calls\": %d}", n)
+}
+
+func racePass08(tier string) int {
+	var out raceOut
+	dst := os.Getenv("VERIF_SUPP_OUT")
+	reps := 2
+	if tier == "thorough" {
+		reps = 10
+	}
+	for _, procs := range []int{2, 4, 16} {
+		o := pool.RunWorker([]string{"race08", strconv.Itoa(reps)}, nil, 10*time.Minute, true, "GOMAXPROCS="+strconv.Itoa(procs), "GORACE=halt_on_error=1 exitcode=66")
+		out.Procs = append(out.Procs, procs)
+		se := string(o.Stderr)
+		var r struct {
+			Calls int64 `json:"calls"`
+		}
+		switch {
+		case strings.Contains(se, "DATA RACE"):
+			i := strings.Index(se, "WARNING: DATA RACE")
+			out.Viol = append(out.Viol, ev.Violation{Engine: "racepass", Key: "data-race GOMAXPROCS=" + strconv.Itoa(procs), Class: "data-race",
+				What: fmt.Sprintf("race detector report while parsing with GOMAXPROCS=%d (lexer goroutine and parser touch the same memory without synchronisation: what a parse returns is then up to the scheduler):\n%s", procs, firstLines(se[i:], 16)), Case: map[string]any{"gomaxprocs": procs}})
+		case o.TimedOut:
+			// budget: not a verdict
+		case o.Crashed():
+			out.Viol = append(out.Viol, ev.Violation{Engine: "racepass", Key: "crash GOMAXPROCS=" + strconv.Itoa(procs), Class: "process-crash",
+				What: fmt.Sprintf("free-running parsing died with GOMAXPROCS=%d (exit=%d signal=%s): %s", procs, o.ExitCode, o.Signal, firstLines(se, 10)), Case: map[string]any{"gomaxprocs": procs}})
+		default:
+			if json.Unmarshal(o.Stdout, &r) == nil {
+				out.Runs += r.Calls
+			}
+		}
+	}
+	if dst == "" {
+		os.Stdout.Write(pool.MustJSON(out))
+		return 0
+	}
+	os.WriteFile(dst, pool.MustJSON(out), 0o644)
+	fmt.Printf("race pass: %d parses under -race, GOMAXPROCS %v, findings=%d\n", out.Runs, out.Procs, len(out.Viol))
+	return 0
 }
 
 type raceOut struct {
